@@ -2,13 +2,16 @@
    PARTIAL.  Proved: (1) the binary GCD of number.c terminates for EVERY pair of int64
    operands (incl. the most negative one) within the model's iteration bound and returns the
    greatest common divisor -- the loop variant is log2 of the product of the odd parts;
-   (2) whenever the reader model returns at all it returns a value xor an error (C10).
-   NOT proved: that the reader model never runs out of fuel 8 + 4*len (every run of the
-   correspondence check asserts it on its inputs), and nothing about the C stack: the model
-   has no stack.  Stack exhaustion by deep nesting is finding K09, decided by running the
-   implementation on a 1 MiB stack. *)
+   (2) TERMINATION OF THE READER MODEL: for every input, every one of the four flag sets,
+   every option set and every handler behaviour, the recursive-descent reader run with fuel
+   8 + 4 * length never runs out of fuel -- every token reader and every successful value read
+   strictly advances the cursor (incl. the whole number scanner), so each loop iteration and
+   each nesting level consumes input; (3) it then returns a value xor an error (C10).
+   NOT covered by any theorem: the C stack (the model has no stack; recursion depth is linear in
+   the input, which is exactly finding K09) and wall-clock time; both are decided by running
+   the implementation on a 1 MiB stack / under CPU accounting. *)
 From Coq Require Import ZArith NArith List Bool.
-From Verif Require Import Lanes Common Values Numbers Scan Reader ReaderInv GcdProofs.
+From Verif Require Import Lanes Common Values Numbers Scan Reader Configs ReaderInv GcdProofs FlagProofs NumProgress ReaderTerm.
 Local Open Scope Z_scope.
 
 Theorem C02_gcd_terminates_and_is_gcd : forall sa sb,
@@ -30,6 +33,20 @@ Proof. exact gcd_main_correct. Qed.
 Example C02_gcd_most_negative : ratio_gcd (- 2 ^ 63) 6 = Some 2 /\ ratio_gcd (- 2 ^ 63) (- 2 ^ 63) = Some (- 2 ^ 63).
 Proof. split; vm_compute; reflexivity. Qed.
 
+(* the reader always returns (no infinite loop, no unbounded recursion without consuming input) *)
+Theorem C02_reader_always_returns : forall c o handler xe xh sort m e fuel, In c all_cfgs ->
+  (8 + 4 * N.to_nat e <= fuel)%nat -> read_doc c o handler xe xh sort m e fuel <> OutOfFuel.
+Proof. exact read_doc_always_returns. Qed.
+
+Theorem C02_model_run_always_returns : forall c o m len, In c all_cfgs -> run_doc c o m len <> OutOfFuel.
+Proof. exact run_doc_always_returns. Qed.
+
+(* the progress fact behind it, for the number scanner: a number token entered at a digit, or at
+   a sign followed by a digit, ends strictly behind its start *)
+Theorem C02_number_token_advances : forall c m e start v q,
+  number_start m e start -> read_number c m e start = NVal v q -> (start < q)%N.
+Proof. exact read_number_progress. Qed.
+
 Theorem C02_returns_value_xor_error_partial : forall c o handler xe xh sort m e fuel r s,
   read_doc c o handler xe xh sort m e fuel = Ret r s ->
   (has_value r <-> r_err r = EOk) /\ (r_eof r = true -> r_value r = None).
@@ -38,3 +55,5 @@ Proof. exact read_doc_xor. Qed.
 Print Assumptions C02_gcd_terminates_and_is_gcd.
 Print Assumptions C02_gcd_loop_bound.
 Print Assumptions C02_returns_value_xor_error_partial.
+Print Assumptions C02_reader_always_returns.
+Print Assumptions C02_model_run_always_returns.
